@@ -95,6 +95,64 @@ def r8_maxwell_polarity(ctx):
             rep.note(f"C08.R8: {C}: signs not determinate (l_q: {sorted(s_l)}, damper column: {sorted(s_d)})")
 
 
+def r13_zero_shortcuts(ctx):
+    """A derivative routine may return zeros early only where the derivative IS zero.  `if not np.any(x): return zeros` is sound iff every additive
+    term of the general result contains x as a factor; the product rule d(W x) = W_q x + W x_q has a term without x, so "no force, hence no
+    derivative" is false for a controller on its set point (x = 0, x_q = -kp l_q)."""
+    from ..wterms import Terms
+    rep = ctx.rep
+    n = 0
+    for rel, mod in sorted(ctx.repo.modules.items()):
+        if not rel.startswith(("cardillo/actuators/", "cardillo/force_laws/", "cardillo/interactions/", "cardillo/forces/")):
+            continue
+        for q, fn in mod.defs().items():
+            if not (isinstance(fn, ast.FunctionDef) and fn.name.endswith(("_q", "_u", "_la_c"))):
+                continue
+            n += 1
+            C = f"{rel}:{q}"
+            local = {}
+            for x in ast.walk(fn):
+                if isinstance(x, ast.Assign) and len(x.targets) == 1 and isinstance(x.targets[0], ast.Name):
+                    local[x.targets[0].id] = x.value
+            finals = [st.value for st in fn.body if isinstance(st, ast.Return) and st.value is not None]
+            for st in fn.body:
+                if not isinstance(st, ast.If):
+                    continue
+                early = [r for r in st.body if isinstance(r, ast.Return) and r.value is not None and isinstance(r.value, ast.Call)
+                         and (dotted(r.value.func) or "").split(".")[-1] in ("zeros", "zeros_like")]
+                if not early or not finals:
+                    continue
+                tested = {w.id for w in ast.walk(st.test) if isinstance(w, ast.Name) and w.id in local}
+                tested_calls = {norm_src(w) for w in ast.walk(st.test) if isinstance(w, ast.Call) and norm_src(w.func).startswith("self.")}
+                if not tested and not tested_calls:
+                    continue        # a test on configuration data (flags, sizes), not on evaluated values
+                names = set(tested)
+
+                def atom(e):
+                    if isinstance(e, ast.Name):
+                        return e.id if e.id in names or e.id not in local else None
+                    if isinstance(e, ast.Call):
+                        s_ = norm_src(e)
+                        return s_
+                    if isinstance(e, (ast.Attribute, ast.Subscript, ast.Constant)):
+                        return norm_src(e)
+                    return None
+                T = Terms(fn, atom)
+                T.local = {k: [v] for k, v in local.items() if k not in names}
+                terms = T.expand(finals[-1])
+                keys = names | tested_calls
+                import re as _re
+                has = lambda a: a in keys or any(_re.search(r"(?<![\w.])" + _re.escape(k) + r"(?![\w])", a) for k in keys)
+                free = [f for c, f in terms if not any(has(a) for a in f)]
+                if free:
+                    rep.bad("C08.R13", C, st.test, f"`if {norm_src(st.test)}: return zeros` - but the general result has the term `{' * '.join(free[0])[:80]}` that does not contain "
+                            f"{sorted(keys)}: where the tested quantity vanishes its derivative need not (a PD / PID controller exactly on its set point has la_tau = 0 and "
+                            "la_tau_q = -kp l_q), so the reported Jacobian is zero where the true one is not", f"{rel}:{st.lineno}")
+                else:
+                    rep.ok("C08.R13", C, f"early zero return under `{norm_src(st.test)[:50]}`: every term of the general result contains the tested quantity")
+    rep.ok("C08.R13", "cardillo/{actuators,force_laws,interactions,forces}", f"{n} derivative routines scanned for value-dependent early zero returns")
+
+
 def r12_tau_rank(ctx):
     """`contr.tau` has two writers: the constructor (whatever the user passes: for a one-input actuator a scalar or a scalar function) and
     System.set_tau, which always stores a slice `tau(t)[contr.tauDOF]`, i.e. an ARRAY of ntau entries.  A reader that wraps `self.tau(t)` into a
@@ -186,6 +244,8 @@ def run(ctx):
                 raise AnalysisError(f"{ci.rel}:{cname}.{name} vanished")
             twobody.check_typing(rep, "C08.R6", f"{ci.rel}:{cname}.{name}", ci.rel, fn)
         twobody.check_polarity(rep, "C08.R7", ci, chain)
+    rep.rule("C08.R13", "derivative routines return zeros early only under tests whose vanishing quantity is a factor of every term of the general result", 1)
+    r13_zero_shortcuts(ctx)
     rep.rule("C08.R12", "actuators read their control input rank-agnostically (constructor passes scalars, System.set_tau array slices)", 3)
     r12_tau_rank(ctx)
     rep.rule("C08.R9", "Revolute: angle and its q-derivative are homogeneous of degree 0 in each joint basis (K6)", 4)
@@ -359,4 +419,10 @@ MUTANTS += [
     dict(id="c08-r5-seed", canary=True, what="[seeded by sub-agent] B_Force.h_q: second product-rule term contracts the body-fixed force with J_P_q without rotating it", file="cardillo/forces/force.py",
          old="        ) + einsum(\"i,ijk->jk\", self.A_IB(t, q) @ self.force(t), self.J_P_q(t, q))\n\n    def export(self, sol_i, **kwargs):\n        r_OP = self.r_OP(sol_i.t, sol_i.q[self.qDOF])\n        A_IB",
          new="        ) + einsum(\"i,ijk->jk\", self.force(t), self.J_P_q(t, q))\n\n    def export(self, sol_i, **kwargs):\n        r_OP = self.r_OP(sol_i.t, sol_i.q[self.qDOF])\n        A_IB", expect="C08.R5"),
+]
+MUTANTS += [
+    dict(id="c08-r13-seed", canary=True, what="[seeded by sub-agent] BaseActuator.Wla_tau_q returns zeros for an idle actuator (la_tau == 0)", file="cardillo/actuators/_base.py",
+         old="        return np.einsum(\n            \"ijk,j->ik\", self.W_tau_q(t, q), self.la_tau(t, q, u)\n        ) + self.W_tau(t, q) @ self.la_tau_q(t, q, u)\n",
+         new="        la_tau = self.la_tau(t, q, u)\n        if not np.any(la_tau):\n            return np.zeros((self._nu, self._nq))\n        return np.einsum(\"ijk,j->ik\", self.W_tau_q(t, q), la_tau) + self.W_tau(t, q) @ self.la_tau_q(t, q, u)\n",
+         expect="C08.R13"),
 ]
